@@ -46,7 +46,7 @@ Init == /\ pc = "start" /\ PInit
 
 Emit == /\ Mode = "emit" /\ pc = "start" /\ pc' = "done"
         /\ LET root == SndTree(bid)
-               alts == SndAlts(SndAt(root, site), SndCtx(root, site))
+               alts == SndAlts(SndAt(root, site), SndCtx(root, site), SndIsDense(bid))
                pre == ~SndIsWhole(bid) IN
            \A a \in 1..Len(alts) :
               /\ Assert(alts[a].kd \in {SndKinds[j] : j \in 1..Len(SndKinds)}, "alternative of an unknown kind")
